@@ -6,7 +6,7 @@ set -u
 cd $WT || exit 2
 git checkout -q -- . ; git clean -fdq -e _seed -e target
 DEMOCMD=$(python3 -c "import json;print(json.load(open('$S/meta$K.json'))['demo'])")
-CRATE=$(echo "$DEMOCMD" | grep -oE '\-p [a-z_]+' | head -1 | cut -d' ' -f2); [ -z "$CRATE" ] && CRATE=duckscript
+CRATE=$(echo "$DEMOCMD" | grep -oE 'cargo test.* -p [a-z_]+' | grep -oE '\-p [a-z_]+' | tail -1 | cut -d' ' -f2); [ -z "$CRATE" ] && CRATE=duckscript
 DIR=$CRATE; [ $CRATE = duckscriptsdk ] && DIR=duckscript_sdk
 mkdir -p $DIR/tests; cp $S/demo$K.rs $DIR/tests/seed_demo$K.rs
 echo "== demo WITHOUT patch"; cargo test --offline -p $CRATE --test seed_demo$K 2>&1 | grep -E '^test result|panicked|error' | head -5; R0=${PIPESTATUS[0]}
